@@ -11,61 +11,61 @@ CHECKS = {
          "Seeded multi-step scripts of hostile sequencing/execution responses drive the real aggregator Manager one production step at a time; an independent oracle re-derives every clause of the chain (link, time, commitment from raw protobuf, delayed app hash, signature under the harness's key, batch mapping, height writes, broadcasts), a real non-aggregator Manager must accept the chain, and bounded no-stall is asserted.",
          W, "runtime monitoring: reference-model oracle over recorded store/exec/sequencer/broadcast events of scripted executions of the real Manager", "DESIGN.md 6 W1, 7 C01"),
  "C02": ("exploration",
-         "A real full-node Manager with all its loops is fed the proposer's chain in generated delivery schedules (all permutations for small chains, mixed DA / P2P / channel ingress with duplicates, omissions, grouped DA heights and clean restarts); after every event the convergence oracle W2 compares blocks, roots and the execution log with the proposer's, and at quiescence the node must have reached everything it received both parts for.",
+         "A real full-node Manager with all its loops is fed the proposer's chain (initial height 1 or 5) in generated delivery schedules: all permutations for small chains, mixed DA / P2P / channel ingress with duplicates, omissions and grouped DA heights, clean restarts, clean stops with events still in flight (a lagging consumer, the stop raised right after the n-th application persisted its state), bulk P2P bursts, a 10 051-block backlog, and items that reach the P2P stores unseen before a restart. After every event the convergence oracle W2 compares blocks, roots and the execution log with the proposer's (a block is executed at most once per process), and at quiescence the node must have reached everything it received both parts for.",
          W + " Delivery through the node's own loops, not libp2p gossip.", "runtime monitoring: barrier-stepped delivery schedules into the real loops + convergence oracle", "DESIGN.md 6 W2, 7 C02"),
  "C03": ("exploration",
-         "Differential runs of a real full node on the same schedule with and without items an attacker can build without the proposer's key (16 kinds, DA and P2P ingress): end states must be equal, no loop may die of DA-borne material, every stored header must verify under the harness's copy of the key, no DA-included mark for foreign hashes; header-only node = the real go-header Syncer+Store behind subscriber/exchange doubles.",
+         "Differential runs of a real full node on the same schedule with and without items an attacker can build without the proposer's key (19 kinds, DA and P2P-header ingress, also directly behind genuine headers in one poll): end states must be equal, no loop may die of DA-borne material, every stored header must verify under the harness's copy of the key, no DA-included mark for foreign hashes; forged transaction data in the P2P data store (genuine metadata, other transactions) must never be applied; header-only node = the real go-header Syncer+Store behind subscriber/exchange doubles.",
          W + " Gossip transport itself (libp2p) is not exercised here.", "runtime monitoring: differential end-state oracle + direct signature/mark checks on executions with adversarial traffic", "DESIGN.md 7 C03"),
  "C04": ("fault_enumeration",
          "Every boundary between two durable writes of a production step (found from the write log, not assumed) is a crash point; enumerated exhaustively over prefix length, step kind and initial height, nested to depth 2 (3 in thorough), followed by restart, clean steps and the chain oracle; the cache writer is killed at every write system call (strace injection) on top of an older cache generation and a node must start on what is left.",
          W + " Process-kill semantics, not power loss.", "runtime fault injection: crash-after-N-writes datastore + strace kill points, chain oracle after recovery", "DESIGN.md 7 C04"),
  "C05": ("fault_enumeration",
-         "Crash after every durable write of applying a block on a real full node (in-order and cascaded application), second crash during re-application, redelivery of the rest / everything / shuffled, then the complete chain on DA: convergence oracle after every event and the DA-included height must reach the tip.",
+         "Crash after every durable write of applying a block on a real full node (in-order and cascaded application; chains with initial height 1 or 5), second crash during re-application, then redelivery of the rest / everything / shuffled through the channels, or nothing at all because the P2P stores (which survive) already held the chain and only tick: convergence oracle after every event and at the end of the redelivery, before the DA layer offers the chain a second time.",
          W, "runtime fault injection: crash-after-N-writes datastore under the real SyncLoop + convergence oracle", "DESIGN.md 7 C05"),
  "C06": ("fault_enumeration",
-         "Every sequence of DA submit outcomes up to length 3 (4 in thorough) over nine outcome kinds, on the header and the data stream, with restarts between rounds: each submit call is decoded and judged (committed material, proposer's signature, height order, starts at watermark+1), every watermark write must be monotone and not past the accepted prefix, and after faults stop everything must be on DA within two iterations.",
-         W + " One loop iteration is driven through the verif hook; the ticker loops run unmodified in C13.", "runtime monitoring: DA-double call log + watermark write log oracle over enumerated fault sequences", "DESIGN.md 6 W3, 7 C06"),
+         "Every sequence of DA submit outcomes up to length 4 (5 in thorough) over nine outcome kinds, on the header and the data stream, with restarts after a round or right after the k-th submission iteration (outcomes still scripted, blocks pending): each submit call is decoded and judged (exactly the committed header / data incl. metadata, proposer's signature, height order, nothing whose acceptance was acknowledged is re-submitted, no needed block skipped - against the oracle's own record of acknowledgements, never the node's), the node's last-submitted heights (hook) must be monotone across restarts and not past the accepted prefix, and after faults stop clean iterations must bring everything onto DA.",
+         W + " One loop iteration is driven through the verif hook; the ticker loops run unmodified in C13.", "runtime monitoring: DA-double call log oracle with its own acknowledgement record + hook-sampled watermarks over enumerated fault sequences", "DESIGN.md 6 W3, 7 C06"),
  "C07": ("exploration",
-         "Seeded interleavings of production, submissions (with DA faults), inclusion passes of the real DAIncluderLoop, DA scans, clean and crash restarts on an aggregator and on a DA-fed full node; monitors at the SetFinal call and at the persist write give the order finalize -> persist -> report; soundness against the DA double's contents; bounded liveness after faults stop.",
+         "Seeded interleavings of production, submissions (with DA faults), inclusion passes of the real DAIncluderLoop, DA scans, clean restarts and crashes - also a crash after the k-th durable write inside an inclusion pass - on an aggregator and on a full node fed through DA (optionally after a prefix arrived and was applied over P2P; initial height 1 or 4); monitors at the SetFinal call and at the persist write give the order finalize -> persist -> report; soundness and the recorded DA heights (read through the store API) are judged against the DA double's contents; in the final phase the node's own wake-ups must bring the DA-included height to the tip.",
          W, "runtime monitoring: online assertions at SetFinal / persist hooks + DA-content soundness oracle", "DESIGN.md 6 W4, 7 C07"),
  "C08": ("exploration",
-         "Seeded rounds of (header iteration, data iteration, 1-4 production steps) with DA outages for limits 1,2,3,5 and eight block patterns: a declined step must be justified by >= limit blocks beyond the accepted prefix of a stream, a produced block must be below the limit, and R accepting rounds must raise the height by >= R-1.",
-         W + " A submission round is atomic in the harness (header then data iteration).", "runtime monitoring: per-step throttle oracle against the DA double's accepted prefix", "DESIGN.md 7 C08"),
+         "Seeded rounds of (header iteration, data iteration, 1-4 production steps) with DA outages for limits 1,2,3,5, eight block patterns and restarts: a declined step must be justified by >= limit blocks beyond the accepted prefix of a stream, nothing is produced with more than limit blocks waiting, R accepting rounds raise the height by >= R-1. Live mode: the node's own two submission loops run (DA block time 1 ms) while production is attempted continuously through outages of 1-190 refused submissions; the node's own pending counts read just before / after a step are the reference, and production must resume after the outage.",
+         W + " In the stepped mode a submission round is atomic (header then data iteration); the live mode runs the real loops.", "runtime monitoring: per-step throttle oracle against the DA double's accepted prefix; concurrent live mode with bounded-resume oracle", "DESIGN.md 7 C08"),
  "C09": ("fault_enumeration",
-         "All fetch-outcome sequences up to length 3 (4) per DA height plus runs of 10-13 failures, over DA heights holding genuine blobs mixed with junk (every truncation class, bit flips, absurd lengths, wrong types), 230-250 ids at one height; the real RetrieveLoop runs in child processes; the oracle reads the DA call log (start, advance-after-success-or-nothing, retry-same-height) and the emitted events.",
-         W + " The scan's 100 ms retry pause is real time; a scan that does not reach the DA head within 90 s with instantly answering doubles is judged stalled.", "runtime monitoring: call-log ordering oracle + exactly-the-genuine-blobs event oracle, crash isolation by child processes", "DESIGN.md 7 C09"),
+         "The real RetrieveLoop (child processes) over DA heights holding genuine blobs mixed with junk (every truncation class, bit flips, absurd lengths, wrong types, structured protobuf junk), empty heights answered in the three forms DA implementations use, 100-250 ids at one height with the genuine blobs in the last chunk, and all fetch-outcome sequences up to length 3 (4) per height with 7 listing / 11 chunk error identities plus runs of 10-13 failures. A spy records every listing and fetch with its ids and the cursor hook: a height is complete once a listing said it holds nothing or every listed id was fetched; the cursor never stands above an incomplete height, a failed height is asked for again before a higher one completes, every genuine blob (byte identity with the producer's) of a complete height is handed to sync.",
+         W + " A stall is judged logically (ticks taken without any DA call); time-outs are inconclusive.", "runtime monitoring: completeness oracle over the recorded DA calls and cursor positions + genuine-blob delivery oracle, crash isolation by child processes", "DESIGN.md 7 C09"),
  "C10": ("exploration",
-         "Sequential histories of submit/next/restart/crash on the real single sequencer against a bounded-FIFO reference model (a crash may or may not have cut the one operation in flight), key-space checks for rejected submissions, and concurrent client histories checked for linearizability with porcupine plus conservation after drain.",
-         W, "runtime monitoring: reference-model comparison + porcupine linearizability checking of recorded histories", "DESIGN.md 7 C10"),
+         "Sequential histories of submit/next/restart on the real single sequencer against a set-of-states reference model of the bounded FIFO, with the process dying at its k-th durable write inside an operation (k = 1..3), histories that start on records in the pre-fix format, rejected submissions judged behaviourally (a sequencer restarted after the rejected call hands out what one restarted before it does), and concurrent client histories checked for linearizability with porcupine plus conservation after drain and agreement with a sequencer restarted on a copy.",
+         W, "runtime monitoring: reference-model comparison + porcupine linearizability checking of recorded histories; crash-at-k-th-write datastore", "DESIGN.md 7 C10"),
  "C11": ("fault_enumeration",
          "Operation scripts on the real Reaper + real single sequencer + real Manager sharing one datastore; the first three reap and produce operations of every script are additionally cut by a crash after every durable write; at quiescence every transaction the mempool handed out must be in the chain, blocks must be the released batches in release order, and without crashes nothing is included more often than offered.",
          W + " Mempool double per contract (executed transactions leave the mempool).", "runtime fault injection + conservation / ordering oracle between mempool, sequencer releases and chain", "DESIGN.md 7 C11"),
  "C12": ("exploration",
-         "Structural generators over every wire type through every path (P2P, DA blob, block store, gob cache), a hand-written protobuf/hash reference, 62 golden vectors recorded from the pinned tree, and decoder totality on mutated and random bytes in child processes (a dead child is a violation attributed to the journaled input).",
+         "Structural generators over every wire type through every path (P2P, DA blob, block store, gob cache; fresh and reused receivers; default and custom signature payload), a hand-written protobuf/hash reference for generated values, 62 golden vectors recorded from the pinned tree, and decoder totality on mutated and random bytes in child processes: an accepted value must be a fixed point of encode/decode with stable hash and commitment (a dead child is a violation attributed to the journaled input).",
          "MemDS instead of Badger for the store path; golden vectors record today's behaviour.", "runtime monitoring: round-trip / reference-encoding / golden-vector oracles, decoder fuzzing with crash isolation", "DESIGN.md 7 C12"),
  "C13": ("exploration",
-         "All loops of an aggregator and a full node run concurrently as goroutines under the Go race detector (children of the -race build) with DA latency/faults and datastore yields; afterwards W1-W4 run on the final state; stop scenarios by logical position require every loop to return within 10 s after cancel with every double released; the real FullNode.Run (libp2p loopback) is stopped at seeded instants. Evidence reports race reports, operations traced, distinct interleaving windows and overlap pairs.",
+         "All loops of an aggregator and a full node run concurrently as goroutines under the Go race detector (children of the -race build) with DA latency/faults, a slow execution client, a mempool that runs dry and datastore yields; an observer samples cross-loop invariants while they run (watermarks and DA-included heights read before the chain height must not exceed it; finalize is only asked for committed blocks), afterwards W1-W4 run on the final state; stop scenarios by logical position (start-up delay, blocked submit / execution / DA listing, full event channels, mid-scan, a long submit back-off, hour-long timers, idle) require every loop to return within 10 s after cancel; the real FullNode.Run (libp2p loopback; built under another context than it runs under; execution client hanging in ExecuteTxs, SetFinal and GetTxs) is stopped at seeded instants and must also wind itself down after a fatal loop error.",
          W + " The race detector only sees executed interleavings.", "runtime monitoring: Go race detector + post-mortem invariant oracles + stop watchdog with goroutine dump", "DESIGN.md 7 C13"),
  "C14": ("exploration",
-         "Operation sequences on the real store against a per-kind map model on MemDS (save = exactly one four-record durable write; crash after every write index), on real Badger with close/reopen, and a child writing to Badger that is SIGKILLed (all four records of a block or none).",
-         "Badger's own durability is trusted for the MemDS runs and spot-checked by the kill test (process kill, not power loss).", "runtime monitoring: reference-model comparison + write-log atomicity check + kill/reopen", "DESIGN.md 7 C14"),
+         "Operation sequences (payloads, state and metadata values up to 3 MiB) on the real store against a per-kind map model on MemDS with a crash after every durable write (the image must equal the model without the cut operation or with all of it), on real Badger with close/reopen, and a child writing to Badger that is SIGKILLed: per height all four records of one save or none, and everything acknowledged before the kill is there after reopen.",
+         "Badger's own durability is trusted for the MemDS runs and spot-checked by the kill test (process kill, not power loss).", "runtime monitoring: reference-model comparison + crash-after-every-write enumeration + kill/reopen durability oracle", "DESIGN.md 7 C14"),
  "C15": ("exploration",
-         "Two real KVExecutor instances on their own Badger directories fed the same blocks with different SetFinal / mempool / InitChain / reopen timing must return equal roots, which a sorted-map reference model predicts; malformed blocks change nothing; re-execution and re-initialisation are idempotent.",
-         "Badger on disk under /verif/out/tmp; reopen by closing the private handle or by child processes.", "runtime monitoring: differential (two instances) + reference-model root oracle", "DESIGN.md 7 C15"),
+         "Real KVExecutor instances on their own Badger directories. Deciding oracle is relational: the root first seen for a history of executed transactions must recur whenever that history recurs - on the other, differently driven instance (SetFinal timing, own-mempool injection, repeated InitChain, reopen, padded transactions), after a refused block, after re-execution; a sorted-map model is a second opinion only. A concurrent phase (SetFinal / InjectTx / GetTxs / InitChain racing with execution, under the race detector in child processes) must equal a sequential instance; a kill phase SIGKILLs the process around every store write.",
+         "Badger on disk under /verif/out/tmp; reopen by closing the private handle or by child processes.", "runtime monitoring: relational (same history, same root) oracle over two instances + race detector on a concurrent phase + kill/reopen", "DESIGN.md 7 C15"),
  "C16": ("fault_enumeration",
-         "The same call sequence on two identical scriptable backings, one called directly and one through the real JSON-RPC server+client on loopback: node-side helper results must agree in code, count, ids, data, height for every sentinel error (plain, wrapped, look-alike texts), cancellation and deadline, heights with/without/future blobs; the client's size filter must send exactly the longest fitting prefix and report what the backing stored.",
-         "HTTP transport on loopback only; messages and timestamps are not compared.", "runtime monitoring: differential oracle direct vs proxied over an enumerated fault matrix", "DESIGN.md 7 C16"),
+         "The same call sequence on two identical scriptable backings, one called directly and one through the real JSON-RPC server+client on loopback: node-side helper results must agree in code, count, ids, data, height and timestamp for every sentinel error in five wrapping positions, cancellation and deadline, heights with/without/future blobs; the six helper-less interface methods are compared by values and error presence; what the proxied backing received must be the longest prefix that fits by the client's own (calibrated) notion of size, and the reported count must be what was stored.",
+         "HTTP transport on loopback only; error message texts are not compared.", "runtime monitoring: differential oracle direct vs proxied over an enumerated fault matrix", "DESIGN.md 7 C16"),
  "C17": ("exploration",
-         "The real AggregationLoop with the production function replaced by a recorder: a notification during an in-flight production must be followed by a further production (idle interval 1 h, 15 s watchdog), on-demand latency and minimum gap judged by majority over 8 samples, block counts over 24 intervals bounded above exactly and below generously, normal mode under a notification storm.",
-         "Real time is used only where load can merely make the implementation look better; isolated early/late samples are counted, not judged.", "runtime monitoring: timing recorder on the real loop with load-robust verdict rules", "DESIGN.md 7 C17"),
+         "The real AggregationLoop with the production function replaced by a recorder: a notification during an in-flight production must be followed by a further production (idle interval 1 h, 15 s watchdog); on-demand latency, minimum gaps and cadence are judged against reference timers and sleeps measured in the same process and window (majority rules, confirm-on-repeat), for lazy and normal mode, idle/block ratios 1-40 incl. fractional ones, productions of 0-200 % of the interval; the real Reaper's notification path is run end to end.",
+         "Time-based verdicts are calibrated against in-process references; uncalibratable samples are inconclusive.", "runtime monitoring: timing recorder on the real loop with load-robust verdict rules", "DESIGN.md 7 C17"),
  "C18": ("exploration",
-         "Fields discovered by reflection over Config and flags by VisitAll; for every field and every (default, file, flag) presence pattern the loaded Config must equal a reference model in every field; every option-naming flag must reach its option; SaveAsYaml -> Load and genesis save -> load must round-trip; invalid genesis files must be refused.",
+         "Fields discovered by reflection over Config and flags by VisitAll; for every field and every (default, file, flag) presence pattern - on a flat command and under root-with-persistent-flags plus subcommand - the loaded Config must equal a reference model in every field; every option-naming flag must reach its option; SaveAsYaml -> Load (strings incl. control characters and YAML-significant words) and genesis save -> load must round-trip; invalid genesis files (derived from the parsed document, plus content after the object) must be refused.",
          "Exhaustive over fields and flags, sampled over values.", "runtime monitoring: reference-model comparison of Load results over reflected fields/flags", "DESIGN.md 7 C18"),
  "C19": ("fault_enumeration",
-         "Create/load/export/import of the real key file in child processes: every byte position x {bit flips, 0x00, 0xFF} and every truncation length (stratified in quick, complete in thorough), JSON-level mutations, wrong passphrases, legacy salt-less files: load must fail or yield the same key whose signatures verify under the key it reports and whose address is KeyAddress(pub); never a panic.",
+         "Create/load/export/import of the real key file in child processes: every byte position x {bit flips, 0x00, 0xFF} and every truncation length (stratified in quick, complete in thorough), JSON-level mutations, wrong passphrases, legacy salt-less files, import over existing files: load must fail or yield the same key whose signatures verify under the key it reports and whose address is KeyAddress(pub); export -> import -> load preserves the key; the file is private (mode & 077 == 0); never a panic.",
          "Standard-library reference for the legacy derivation; Argon2 cost makes the byte enumeration stratified in quick.", "runtime fault injection on the key file + signature/address oracle, crash isolation by child processes", "DESIGN.md 7 C19"),
  "C20": ("exploration",
-         "Histories of GetNextBatch calls on the real based sequencer over generated DA contents, limits, DA growth, retrieval errors and restarts: the concatenation of released transactions must at all times be a prefix of the DA contents in (height, position) order, every batch within the requested size, bounded completeness once the DA is frozen.",
+         "Histories of GetNextBatch calls on the real based sequencer over generated DA contents (text and binary transactions, 0-230 per height, up to 256 KiB), limits incl. none and below a transaction, DA growth, retrieval errors and restarts with the caller's cursor kept, lost or stale: the concatenation of released transactions must at all times be a prefix of the DA contents in (height, position) order, every batch within the requested size, bounded completeness once the DA is frozen.",
          W, "runtime monitoring: prefix-of-DA-order oracle over recorded releases", "DESIGN.md 7 C20"),
 }
 
